@@ -140,7 +140,7 @@ def _profile(cfg) -> gg.Profile:
              "include", "render", "render", "liquid", "case", "tablerow"]
     return gg.Profile(
         nodes=nodes, partials=["p", "q", "gen"], depth=3, width=4,
-        text_alphabet=["a", "b", " ", "é", "漢", "😀", "x", "\n"],
+        text_alphabet=["a", "b", " ", "é", "漢", "😀", "x", "\n", "\r\n", "\r"],
         str_alphabet=["a", "é", "漢", " ", "1"],
         dynamic_partial_names=False, break_continue=False,
         filters=["upcase", "append", "size", "join", "first", "default", "times", "plus", "slice", "split", "reverse"],
